@@ -50,6 +50,7 @@ type Exec struct {
 	stack    []*ssa.Function
 	paramVals map[string]TVal
 	nilChecked map[string]bool
+	closures map[string]*Closure // function-value ids (negative integers) of closures created in this unit
 	safety   bool // generate no-panic obligations
 	frames   bool
 	calleeNote map[string]bool
@@ -282,7 +283,10 @@ func (ex *Exec) valTermOK(v Val) (string, bool) {
 		}
 		return "", false
 	}
-	if v.closure != nil || v.fn != nil || v.tuple != nil {
+	if v.tuple != nil {
+		return "", false
+	}
+	if (v.closure != nil || v.fn != nil) && v.t == "" {
 		return "", false
 	}
 	return v.t, true
@@ -314,6 +318,7 @@ func (ex *Exec) mergeVals(pcs []string, vals []Val, sort string) Val {
 	out := vals[0]
 	out.place = nil
 	out.origin = nil
+	out.closure, out.fn = nil, nil
 	out.t = ex.vc.define("m", sort, t)
 	if vals[0].place != nil {
 		out.t = ""
@@ -544,7 +549,7 @@ func (fr *Frame) val(v ssa.Value) Val {
 	case *ssa.Const:
 		return fr.constVal(v)
 	case *ssa.Function:
-		return Val{fn: v, typ: v.Type()}
+		return Val{fn: v, typ: v.Type(), t: fr.ex.funcID(&Closure{fn: v})}
 	case *ssa.Global:
 		return Val{place: &Place{kind: pkHeap, ref: fr.ex.globalRef(v), root: v.Type().(*types.Pointer).Elem()}, typ: v.Type()}
 	case *ssa.FreeVar:
@@ -819,3 +824,21 @@ func selInts(p []Sel) []int {
 }
 
 func constantString(c *ssa.Const) string { return constant.StringVal(c.Value) }
+
+// funcID registers a known function value and returns its id term (a negative integer; unknown function
+// values such as callback parameters are non-negative, nil is 0).
+func (ex *Exec) funcID(c *Closure) string {
+	if ex.closures == nil {
+		ex.closures = map[string]*Closure{}
+	}
+	if len(c.bindings) == 0 {
+		for id, o := range ex.closures {
+			if o.fn == c.fn && len(o.bindings) == 0 {
+				return id
+			}
+		}
+	}
+	id := fmt.Sprintf("(- %d)", 1000+len(ex.closures))
+	ex.closures[id] = c
+	return id
+}
